@@ -60,6 +60,13 @@ CHECKS = {
           "loops must equal the reference) and under Simple/HeuTopo/Unroll (must reject); a watchdog catches hangs.",
           "Loop values are at most 3 bits wide so the classification is exhaustive; wider or data-dependent loops are outside the generator.",
           "DESIGN.md 3/C11"),
+  "C16": ("exploration",
+          "property-based testing (Hypothesis): generated designs simulated with VCD and text-wave dumping; dump re-read by an independent VCD parser and compared with values recorded at every clock edge",
+          "Every signal of every component must have a $var of the right width whose value at time 100*t equals the value recorded from the "
+          "simulator before tick t (structs as packed values, signals sharing nets, constants, never-changing signals, revisited values), the "
+          "pre-#0 section must hold the defaults, the clock must toggle once per cycle, and the text-wave record must hold the same values.",
+          "The harness-side VCD reader (vf/ref/vcd.py) follows IEEE 1364 value-change syntax; values at the edge are read through the public signal attributes.",
+          "DESIGN.md 3/C16"),
 }
 
 NOT_YET = {}
